@@ -96,7 +96,132 @@ def instances(tier):
 
 
 def run_instance(inst):
+    if inst[0] == 'realmap':
+        return run_realmap(inst)
     return gabs.run(inst, claims_fn, witness_fn)
+
+
+class GraphView:
+    """adjacency oracle read from the raw graph dictionary of a real InMemMap at one moment (dangling neighbour labels of removed
+    nodes are not moves the map offers)."""
+
+    def __init__(self, mp):
+        g = mp.graph
+        self.G = {k: [n for n in v[1] if n in g and g[n][0] is not None] for k, v in g.items() if v[0] is not None}
+        self.linked = {}
+
+
+def realmap_apply(mp, mutation):
+    k = mutation[0]
+    if k == 'del_node':
+        mp.del_node(mutation[1])
+    elif k == 'purge':
+        mp.purge()
+    elif k == 'add_edge':
+        mp.add_edge(mutation[1], mutation[2])
+    elif k == 'add_node':
+        mp.add_node(mutation[1], tuple(mutation[2]))
+        for a, b in mutation[3]:
+            mp.add_edge(a, b)
+    elif k != 'none':
+        raise AssertionError(mutation)
+
+
+def realmap_run(eng, lay, cfg, mutation, path):
+    """match on the real InMemMap, change the map through its public interface, match again (fresh matcher and the old one)."""
+    from symx import greal
+    from symx.matchlib import make_matcher
+    mp = greal.new_map(lay)
+    out = []
+    mt = make_matcher(eng, mp, cfg)
+    st, idx = mt.match(path)
+    out.append(dict(tag='before_change', states=st, lb=list(mt.lattice_best or []), view=GraphView(mp), mt=mt))
+    realmap_apply(mp, mutation)
+    view = GraphView(mp)
+    mt2 = make_matcher(eng, mp, cfg)
+    st, idx = mt2.match(path)
+    out.append(dict(tag='after_change_fresh_matcher', states=st, lb=list(mt2.lattice_best or []), view=view, mt=mt2))
+    st, idx = mt.match(path)
+    out.append(dict(tag='after_change_same_matcher', states=st, lb=list(mt.lattice_best or []), view=view, mt=mt))
+    return out
+
+
+def realmap_claims(results, cfg):
+    cl = []
+    for r in results:
+        if not r['states'] or not r['lb']:
+            continue
+        class V:
+            lattice_best = r['lb']
+            node_path = list(r['states'])
+            node_path_to_only_nodes = r['mt'].node_path_to_only_nodes
+        for nm, f in LL.c04_claims(r['view'], V, cfg):
+            cl.append((f"{r['tag']}:{nm}", f))
+    return cl
+
+
+def run_realmap(inst):
+    """G-real: the REAL InMemMap (its own neighbour queries and spatial queries, real planar kernels) with symbolic observations;
+    the map is changed through its public interface between two matches.  Oracle: the raw graph dictionary at the time of each match."""
+    import z3
+    from symx import engine as E, runner, greal
+    from symx.matchlib import Cfg, make_matcher
+    _, lay, fam, ne, mutation = inst[:5]
+    budget = inst[5] if len(inst) > 5 else None
+    cfg = Cfg(fam=fam, T=2, ne=ne, **NOSYM)
+    shims.install()
+    name = f"realmap {lay} {fam} ne={int(ne)} change={mutation}"
+
+    def scenario():
+        eng = E.get_engine()
+        path = greal.make_path(eng, 2, '1d')
+        return dict(path=path, results=realmap_run(eng, lay, cfg, mutation, path))
+
+    def claims(eng, v):
+        return realmap_claims(v['results'], cfg)
+
+    def confirm(eng, model, v, cname):
+        if not isinstance(v, dict):
+            return None
+        cpath = greal.concrete_path(model, v['path'])
+        bad = realmap_concrete(lay, fam, ne, mutation, cpath)
+        if bad:
+            return dict(desc=bad, kind='realmap', layout=lay, fam=fam, ne=ne, mutation=list(mutation), path=[list(p) for p in cpath])
+        return None
+
+    def witness(eng, v):
+        t = ['realmap']
+        rs = v['results']
+        if rs[1]['states'] and [m.shortkey for m in rs[1]['lb']] != [m.shortkey for m in rs[0]['lb']]:
+            t.append('realmap_change_altered_the_result')
+        if any(len(set(m.shortkey for m in r['lb'])) > 1 for r in rs):
+            t.append('moved')
+        return t
+    try:
+        return runner.explore(name, runner.nra_engine(10000), scenario, claims, confirm=confirm, witness=witness, budget_s=budget, exc_is_violation=False)
+    finally:
+        shims.uninstall()
+
+
+def realmap_concrete(lay, fam, ne, mutation, cpath):
+    """the same sequence on plain floats with the unmodified code; returns None or a description"""
+    from symx.matchlib import Cfg
+    cfg = Cfg(fam=fam, T=2, ne=ne, **NOSYM)
+    with shims.concrete():
+        try:
+            results = realmap_run(None, lay, cfg, tuple(mutation), [tuple(p) for p in cpath])
+        except Exception:
+            return None                      # totality is C17's subject
+        for r in results:
+            if not r['states'] or not r['lb']:
+                continue
+            keys = [m.shortkey for m in r['lb']]
+            missing = [k for k in keys if not LL.state_exists(r['view'], k)]
+            bad = [(a, b) for a, b in zip(keys, keys[1:]) if not LL.moves_ok(r['view'], a, b)]
+            if missing or bad:
+                return (f"InMemMap layout {lay}, {fam}, non-emitting={ne}, observations {cpath}, map change {mutation}: {r['tag']} best path {keys} - "
+                        f"states not in the map: {missing}; moves the map does not offer: {bad}; graph now { {k: v for k, v in r['view'].G.items()} }")
+    return None
 
 
 def run_crosshair(tier):
@@ -129,6 +254,12 @@ def main(tier):
                              inmem.InMemMap.edges_nbrto)
     budget = 60 if tier == 'quick' else 900
     res = gabs.run_all(rep, run_instance, instances(tier), budget, 16 * (100 if tier == 'quick' else 900))
+    from symx.common import run_instances
+    rb = 40 if tier == 'quick' else 400
+    real = [('realmap', lay, fam, ne, mut, rb) for lay, mut in (('oneway4', ('del_node', 'D')), ('oneway4', ('purge',)),
+                                                                ('oneway3', ('add_node', 'D', (0.0, 3.0), [('C', 'D')])), ('line3', ('del_node', 'C')))
+            for fam, ne in (('simple_n', True), ('dist', True), ('simple', False))]
+    res = list(res) + list(run_instances(run_instance, real))
     ch = run_crosshair(tier)
     rep.extra['crosshair_node_path_to_only_nodes'] = ch
     if ch.get('refuted'):
@@ -142,6 +273,7 @@ def main(tier):
                       else "all digraphs <=3 nodes, fork, oneway4, path4, diamond, star, linked3, par2, linkin",
                       T="2..3", variants="self-listed neighbours on/off, one-way, dead ends, linked pair, non-emitting on/off, width-1 then widen, extend",
                       crosshair="node_path_to_only_nodes: state sequences of length 4 over symbolic int labels satisfying the walk predicate")
+    rep.bounds['real_map'] = "real InMemMap layouts oneway3/oneway4/line3 with 1-D symbolic observations (T=2): match, change the map (del_node, purge, add_node+add_edge), match again with a fresh and with the old matcher"
     rep.outside = ["SqliteMap neighbour queries (see C12)", "graphs beyond the bound", "jump operation (continue_with_distance)"]
     rep.assumptions = ["AbsMap lists neighbours like InMemMap (end-node successors + linked edges; node itself when self_listed)"]
     gabs.collect(rep, res, PID, need_tags=('moved', 'nonemitting_on_best_path', 'linked_edge_hop', 'u_turn'))
@@ -156,4 +288,8 @@ def replay_file(path):
     if d.get('kind') == 'crosshair':
         print(d['output'])
         return 1
+    if d.get('kind') == 'realmap':
+        bad = realmap_concrete(d['layout'], d['fam'], d['ne'], tuple(tuple(x) if isinstance(x, list) and x and isinstance(x[0], list) else x for x in d['mutation']), d['path'])
+        print(bad or 'consistent')
+        return 1 if bad else 0
     return gabs.replay(path, claims_fn)
